@@ -676,6 +676,7 @@ pub fn packet_oracle(prop: &str, tier: &str, seed: u64, ops: Option<&[String]>) 
                     }
                     if ops.is_none() {
                         po::pair_sweeps(&mut rep, true);
+                        po::full_1d_sweeps(&mut rep, true);
                     }
                 }
                 "C02" => {
@@ -687,6 +688,7 @@ pub fn packet_oracle(prop: &str, tier: &str, seed: u64, ops: Option<&[String]>) 
                     }
                     if ops.is_none() {
                         po::pair_sweeps(&mut rep, false);
+                        po::full_1d_sweeps(&mut rep, false);
                         po::c02_oversize(&mut rep);
                         po::c02_property_boundaries(&mut rep);
                         po::c02_boundary(&mut rep);
